@@ -153,8 +153,33 @@ def _gen_main(rng, tier):
                 yield f"from_radix_le {s}{cfg} {r} 01", "bad-radix"
 
 
+def length_sweep(rng, tier):
+    """numerals of EVERY length 1 .. capacity+2 (chunked accumulation: a length that is a multiple of the chunk
+    size, plus one, minus one, ...), three digit patterns per length, for a few radices and configurations"""
+    for cfg in ["8x3", "16x3", "64x2", "8x17"] + (["32x3", "64x5", "16x9"] if tier == "thorough" else []):
+        w, n = wn(cfg)
+        M = 1 << (w * n)
+        for r in (2, 3, 7, 10, 16, 36) + ((5, 8, 32, 35) if tier == "thorough" else ()):
+            cap = len(numeral(M - 1, r))
+            for L in range(1, cap + 3):
+                pats = ["1" + "0" * (L - 1), DIG[r - 1] * L,
+                        rng.choice(DIG[1:r]) + "".join(rng.choice(DIG[:r]) for _ in range(L - 1)),
+                        "1" + "0" * (L - 2) + "1" if L > 1 else "1"]
+                for k, body in enumerate(pats):
+                    s = "ui"[(L + k) & 1]
+                    sign = "-" if (s == "i" and k == 1) else ("+" if k == 2 and L % 3 == 0 else "")
+                    b = (sign + body).encode()
+                    yield f"from_str_radix {s}{cfg} {r} {hexs(b)}", "length-sweep"
+                    if k == 0:
+                        yield f"parse_bytes {s}{cfg} {r} {hexs(b)}", "length-sweep"
+                ds = bytes(rng.randrange(r) for _ in range(L - 1)) + bytes([rng.randrange(1, r)])
+                yield f"from_radix_le u{cfg} {r} {hexs(ds)}", "length-sweep"
+                yield f"from_radix_be i{cfg} {r} {hexs(ds[::-1])}", "length-sweep"
+
+
 def gen(rng, tier):
     yield from _gen_main(rng, tier)
+    yield from length_sweep(rng, tier)
     if tier == "thorough":
         yield from _ws.parse_print(rng)
     yield from _prim.utf8(rng, tier)
